@@ -314,8 +314,10 @@ func checkC13(c *Ctx) error {
 				runtimeAPI = r.API.Runtime
 				if cell.names != "set" && r.API != nil {
 					// documented defaults
-					if cell.names == "unset" && r.API.Type != "*main.Gontainer" {
-						c.Violate("defaults", fmt.Sprintf("unit %s: default names give %s, expected *main.Gontainer", u.ID, r.API.Type), files)
+					// documented defaults, each on its own: package main, type Gontainer (the constructor's default is exercised by
+					// the probe, which calls it by the expected name)
+					if want := "*" + u.PkgName() + "." + u.TypeName(); r.API.Type != want {
+						c.Violate("defaults", fmt.Sprintf("unit %s: the container type is %s, expected %s", u.ID, r.API.Type, want), files)
 					}
 				}
 			}
